@@ -10,17 +10,13 @@
    joined s n m rel = the store has an edge of relation rel between n and m;  find_node = _find_node
    (exactly one node of that graph with that NodeID, else the call raises). *)
 From Coq Require Import List NArith ZArith Bool.
-From FIM Require Import Model.Query6 Proofs.Query6Nbr Proofs.Query6Path Proofs.Query6Api.
+From FIM Require Import Gen.Query6Gen Model.Query6 Proofs.Query6Nbr Proofs.Query6Path Proofs.Query6Api Proofs.Query6Gen.
 Import ListNotations.
 Open Scope N_scope.
 
-(* two graphs in one store; graph 1: a(1) -has- b(2), b -connects- c(3), b -has- d(4), c -connects- e(5),
-   d -connects- e;  graph 2 reuses the NodeIDs 1 and 2.  classes: 1 NetworkNode, 4 NetworkService,
+(* ex_store (Model/Query6.v): two graphs in one store; graph 1: a(1) -has- b(2), b -connects- c(3), b -has- d(4),
+   c -connects- e(5), d -connects- e; graph 2 reuses the NodeIDs 1 and 2.  classes: 1 NetworkNode, 4 NetworkService,
    5 ConnectionPoint; relations: 1 has, 2 connects *)
-Definition ex_store : store :=
-  mkStore [mkNode 10 1 1 1; mkNode 11 2 1 5; mkNode 12 1 2 4; mkNode 13 2 2 5; mkNode 14 1 3 5; mkNode 15 1 4 5;
-           mkNode 16 1 5 5]
-          [(10, 12, 1); (11, 13, 2); (12, 14, 2); (12, 15, 1); (14, 16, 2); (15, 16, 2)].
 
 (* ------------------------------------------------------------------------------------------------- *)
 (* _find_node *)
@@ -204,6 +200,21 @@ Proof. vm_compute. repeat split. Qed.
 
 (* ------------------------------------------------------------------------------------------------- *)
 (* derived helpers *)
+
+(* the translator recognised the helper bodies and what it read from the source is what the model transcribes:
+   the relation/class constants passed to the two-hop query, the accepted parent classes, `None` on no
+   candidate, the `!= 1` guard of get_parent, and the snapshot iteration of _drop_edges_not_of_type
+   (for the vocabulary std_vocab the harness interns with) *)
+Theorem C06_helpers_translated :
+  Query6Gen.gen_ok = true /\
+  gen_peer_args = (v_connects std_vocab, v_Link std_vocab, v_connects std_vocab, v_ConnectionPoint std_vocab) /\
+  gen_peer_none_when_empty = true /\
+  gen_nodecps_args = (v_has std_vocab, v_NetworkService std_vocab, v_connects std_vocab, v_ConnectionPoint std_vocab) /\
+  gen_nodecps_classes = [v_NetworkNode std_vocab; v_Component std_vocab; v_CompositeNode std_vocab] /\
+  gen_parent_requires_exactly_one = true /\
+  gen_drop_iterates_snapshot = true.
+Proof. exact helpers_translated. Qed.
+Print Assumptions C06_helpers_translated.
 Theorem C06_get_parent_exact : forall s gid id rel parent p,
   keys_distinct s = true ->
   get_parent s gid id rel parent = Ok (Some p) ->
@@ -239,7 +250,7 @@ Proof. exact node_cps_returned. Qed.
 Print Assumptions C06_node_connection_points_partial.
 
 Example C06_helpers_example :
-  let V := mkVocab 1 2 1 2 3 4 5 6 in
+  let V := std_vocab in
   get_parent ex_store 1 2 1 1 = Ok (Some 1) /\ get_parent ex_store 1 2 1 5 = Ok (Some 4)
   /\ get_parent ex_store 1 5 2 5 = Ok None
   /\ get_all_node_or_component_connection_points V ex_store 1 1 = Ok [3; 4]
